@@ -244,9 +244,9 @@ func c10OneSuite12(t *testing.T, r *c10Rand, out *c10Out, id ID, sp c10Suite, is
 func TestVerifC10Record13(t *testing.T) {
 	r := &c10Rand{s: c10Seed() ^ 0xc1013}
 	out := newC10Out(t)
-	per := 25
+	per := 15
 	if c10Thorough() {
-		per = 1000
+		per = 400
 	}
 	ids := []ID{TLS_AES_128_GCM_SHA256, TLS_AES_256_GCM_SHA384, TLS_CHACHA20_POLY1305_SHA256}
 	n13 := 0
